@@ -93,6 +93,18 @@ def run(prop, path):
         if r['status'] == 'error':
             return 2
         still = r['status'] == 'reject'
+    elif kind == 'store-rule' and prop == 'C12':
+        import search_checks
+        build_harness()
+        d = fresh_dir('replay-%d' % os.getpid())
+        search_checks.write_cases(os.path.join(d, 'c.ndjson'), [{'id': 0, 'fen': sig['fen'], 'hist': [], 'depth': sig['depth']}])
+        f = os.path.join(d, 'steps.ndjson')
+        run_harness(['search-steps', '--cases', os.path.join(d, 'c.ndjson'), '--out', f, '--cap', 400000], timeout=3000)
+        r = search_checks.validate_search(f, 'STORE', big=True)
+        print('the case on the current tree: %s %s' % (r['status'], r.get('fails')))
+        if r['status'] == 'error':
+            return 2
+        still = r['status'] == 'reject'
     elif kind == 'probe-rule' and prop == 'C12':
         import search_checks
         build_harness()
